@@ -28,15 +28,20 @@ def matrix(tier):
         for w, cc in variants():
             scope = 0 if w == 8 else (1 if (w, cc) in ((16, False), (32, True), (64, True)) else 2)
             m.append((w, cc, 'gcc', '-O2', scope))
+        # cheap alphabets first, the 8-bit exhaustive scope last: a deadline on an overloaded machine then costs depth, not breadth
+        m.sort(key=lambda c: -c[4])
         return m
     # thorough: 9 variants x {gcc, clang} x {-O0, -O2, -O3} = 54 builds.  Every build of 8-bit digits runs the exhaustive
     # scope; the wide variants run the 3-digit alphabet at -O2 (both compilers) and the 2-digit alphabet at -O0/-O3.
     # Order = priority (a deadline cuts the tail): -O2 first, then -O3, then -O0.
     for opt in ('-O2', '-O3', '-O0'):
+        blk = []
         for comp in ('gcc', 'clang'):
             for w, cc in variants():
                 scope = 0 if w == 8 else (1 if opt == '-O2' else 2)
-                m.append((w, cc, comp, opt, scope))
+                blk.append((w, cc, comp, opt, scope))
+        blk.sort(key=lambda c: -c[4])   # within a block: alphabets before the 8-bit exhaustive scope
+        m += blk
     return m
 
 
@@ -120,7 +125,7 @@ def run(tier):
     # The tier must terminate by itself: the harnesses stop taking new cases at C01_DEADLINE (and still print their
     # statistics); run_sharded's kill deadline is only the backstop behind that.
     budget = int(os.environ.get('C01_BUDGET', 0)) or (80 if tier == 'quick' else 840)
-    budget = max(budget, int(time.time() - rep.t0) + 25)   # builds on an overloaded machine must not eat the whole window
+    budget = max(budget, int(time.time() - rep.t0) + 45)   # builds on an overloaded machine must not eat the whole window
     env = {'C01_DEADLINE': str(int(rep.t0 + budget))}
     # run order: the -O2 configurations, then (thorough) the 2^32-pair harness, then the remaining optimisation levels
     order = []
